@@ -6,6 +6,9 @@ import PtnModel.Proofs.DenseMergeMpo
 import PtnModel.Proofs.DenseSplitEx
 import PtnModel.Proofs.DenseApplyOk
 import PtnModel.Proofs.DenseSplitFullEx
+import PtnModel.Proofs.DenseFromVectorEx
+import PtnModel.Proofs.DenseClosureAdd
+import PtnModel.Proofs.DenseFromVectorShape
 import PtnModel.Proofs.DenseExamples
 /-!
 # Property C03 (MPS/MPO arithmetic agrees with dense linear algebra)
@@ -29,6 +32,19 @@ Vocabulary (definitions in `PtnModel/Proofs/DenseDefs.lean`):
                        boundary bonds, charge lists as long as the bond dimensions; `MPO.Shaped` likewise;
 * `sumDigits d n f`  : `Σ_{u ∈ {0..d-1}^n} f u`;
 * `flat d s`         : row-major position of basis state `s`.
+
+Inventory:
+* (a)-(e) `add_mps_dense`, `add_mpo_dense`, `mul_mpo_dense`, `apply_dense`, `identity_dense` : homomorphism laws, for
+  every result the call returns; `add_mps_ok`, `add_mpo_ok`, `mul_mpo_ok`, `apply_ok` : the calls do return on
+  well-formed operands satisfying the asserted preconditions; `*_shaped`, `chained_dense` : results are shaped again,
+  so the laws compose along chained expressions;
+* (f) `merge_mps_dense`, `merge_mpo_dense`, `as_vector_amp`, `as_matrix_elem` : merging neighbouring tensors preserves
+  the dense meaning; `as_vector()` / `as_matrix()` (dense path) list exactly `amp` / `elem` in row-major order;
+* (g) `split_merge_tol0` (under the C12 kernel contracts) and `split_merge_tol0_partial` (contract-free, reconstruction
+  as explicit hypothesis, any tolerance) : merge undoes split for the three singular-value distributions;
+* (h) `from_vector_tol0`, `from_vector_as_vector_tol0` : zero-tolerance `from_vector` reproduces the vector.
+Not decided here: equality of the sparse and dense forms of `as_matrix` (the sparse path is not modelled; it is compared
+with the dense model by the correspondence only).
 -/
 namespace Ptn.C03
 open Ptn.Dense.Ex Ptn.Dense
@@ -259,6 +275,44 @@ example (distr : Nat) (hd : distr = 0 ∨ distr = 1 ∨ distr = 2) :
   · exact SplitEx.exists_of_isOk SplitQ.split_isOk.2.1
   · exact SplitEx.exists_of_isOk SplitQ.split_isOk.2.2
 
+/-- (h) `MPS.from_vector(d, nsites, v, tol = 0)` reproduces the vector: whenever it returns, the result has `nsites`
+tensors and its dense amplitude at every basis state `s` is the entry of `v` at the row-major position of `s`.
+Hypothesis `hk` (kernel contracts, required only at the matrices `fvMats …` handed to the SVD kernel during the run;
+`MPS.FvSvdAt` in `Proofs/DenseFromVectorFull.lean`): outer shapes `U : m × ·`, `V : · × n`; `U · diag(s) · V = M`;
+`np.linalg.norm` / `np.argsort` contracts of C12 on `s`.  (No orthogonality or sign clause is needed.) -/
+theorem from_vector_tol0 {𝕜 : Type} [CommRing 𝕜] {ρ : Type} [Field ρ] [LinearOrder ρ] [IsStrictOrderedRing ρ]
+    [RealLike ρ 𝕜] (ι : ρ →+* 𝕜) (hι : ∀ x : ρ, (RealLike.ofReal x : 𝕜) = ι x)
+    (k : MPS.SvdKernels 𝕜 ρ) (d n : Nat) (v : List 𝕜) (ψ : MPS 𝕜)
+    (hk : ∀ M ∈ MPS.fvMats k d n (⟨1, v.length, fun _ c => v.toArray.getD c 0⟩ : Mat 𝕜) (0 : ρ), MPS.FvSvdAt ι k M)
+    (h : MPS.fromVector k d n v (0 : ρ) = .ok ψ) :
+    ψ.A.length = n ∧ ∀ s, Digits d n s → ψ.amp s = v.getD (flat d s) 0 :=
+  MPS.fromVector_tol0 ι hι k d n v ψ hk h
+
+/-- non-vacuity of `from_vector_tol0`: `v = [3, 0, 0, 4]` on two sites over `ℚ` with exact rational SVD steps
+(`diag(3, 4)`, then the column `[3, 0, 0, 4]ᵀ = [3/5, 0, 0, 4/5]ᵀ · 5 · [1]`) -/
+example : (∀ x : ℚ, (RealLike.ofReal x : ℚ) = (RingHom.id ℚ) x) ∧
+    (∀ M ∈ MPS.fvMats FvQ.k 2 2 FvQ.v0 (0 : ℚ), MPS.FvSvdAt (RingHom.id ℚ) FvQ.k M) ∧
+    (MPS.fromVector FvQ.k 2 2 FvQ.v (0 : ℚ)).isOk = true ∧
+    (MPS.fromVector FvQ.k 2 2 FvQ.v (0 : ℚ)).toOption.map
+      (fun ψ => [ψ.amp [0, 0], ψ.amp [0, 1], ψ.amp [1, 0], ψ.amp [1, 1]]) = some [3, 0, 0, 4] :=
+  ⟨fun _ => rfl, FvQ.contracts, FvQ.run_isOk, FvQ.run_dense⟩
+
+/-- (h') the same in terms of `as_vector`: under the contracts of `from_vector_tol0` the result is a shaped MPS and
+`MPS.from_vector(d, nsites, v, 0).as_vector()`, whenever both calls return, is exactly `v`. -/
+theorem from_vector_as_vector_tol0 {𝕜 : Type} [CommRing 𝕜] {ρ : Type} [Field ρ] [LinearOrder ρ]
+    [IsStrictOrderedRing ρ] [RealLike ρ 𝕜] (ι : ρ →+* 𝕜) (hι : ∀ x : ρ, (RealLike.ofReal x : 𝕜) = ι x)
+    (k : MPS.SvdKernels 𝕜 ρ) (d n : Nat) (v : List 𝕜) (ψ : MPS 𝕜)
+    (hk : ∀ M ∈ MPS.fvMats k d n (⟨1, v.length, fun _ c => v.toArray.getD c 0⟩ : Mat 𝕜) (0 : ρ), MPS.FvSvdAt ι k M)
+    (h : MPS.fromVector k d n v (0 : ρ) = .ok ψ) :
+    MPS.Shaped ψ d ∧ ∀ v', ψ.asVector = .ok v' → v' = v :=
+  ⟨(MPS.fromVector_shaped k d n v 0 ψ h (fun M hM => MPS.stepExact_of_contract ι hι k M (hk M hM))).1,
+   fun v' hv' => MPS.fromVector_asVector k d n v 0 ψ h
+     (fun M hM => MPS.stepExact_of_contract ι hι k M (hk M hM)) v' hv'⟩
+
+/-- non-vacuity of `from_vector_as_vector_tol0`: for the example of `from_vector_tol0`, `as_vector` returns -/
+example : ((MPS.fromVector FvQ.k 2 2 FvQ.v (0 : ℚ)).toOption.map fun ψ => ψ.asVector.isOk) = some true := by
+  decide +kernel
+
 /-! ### The calls do return on operands satisfying the asserted preconditions
 
 `wellFormed` (model `MPS.wellFormed` / `MPO.wellFormed`): `len(qD) = L + 1`, every tensor has the shape given by `qd` and
@@ -303,5 +357,44 @@ theorem apply_ok (o : MPO R) (ψ : MPS R) (w0 : o.wellFormed = true) (w1 : ψ.we
 example : o0.wellFormed = true ∧ o1.wellFormed = true ∧ ψ0.wellFormed = true ∧ ψ0.qd = o0.qd ∧
     ψ0.A.length = o0.A.length ∧ (o0.qD.getD 0 []).length = 1 ∧ (ψ0.qD.getD 0 []).length = 1 ∧
     (o0.qD.getD ψ0.A.length []).length = 1 ∧ (ψ0.qD.getD ψ0.A.length []).length = 1 := by decide
+
+/-! ### Results are again `Shaped`, so the dense theorems compose along chained expressions -/
+
+/-- the result of `add_mps` on shaped operands is shaped -/
+theorem add_mps_shaped (ψ0 ψ1 r : MPS R) (α : R) (d : Nat) (h0 : MPS.Shaped ψ0 d) (h1 : MPS.Shaped ψ1 d)
+    (h : MPS.add ψ0 ψ1 α = .ok r) : MPS.Shaped r d :=
+  MPS.add_shaped ψ0 ψ1 r α d h0 h1 h
+
+/-- the result of `add_mpo` on shaped operands is shaped -/
+theorem add_mpo_shaped (o0 o1 r : MPO R) (α : R) (d : Nat) (h0 : MPO.Shaped o0 d) (h1 : MPO.Shaped o1 d)
+    (h : MPO.add o0 o1 α = .ok r) : MPO.Shaped r d :=
+  MPO.add_shaped o0 o1 r α d h0 h1 h
+
+/-- the result of `multiply_mpo` on shaped operands is shaped -/
+theorem mul_mpo_shaped (o0 o1 r : MPO R) (d : Nat) (h0 : MPO.Shaped o0 d) (h1 : MPO.Shaped o1 d)
+    (h : MPO.multiply o0 o1 = .ok r) : MPO.Shaped r d :=
+  MPO.multiply_shaped o0 o1 r d h0 h1 h
+
+/-- the result of `apply_operator` on shaped operands is shaped -/
+theorem apply_shaped (o : MPO R) (ψ r : MPS R) (d : Nat) (h0 : MPO.Shaped o d) (h1 : MPS.Shaped ψ d)
+    (h : Op.applyOperator o ψ = .ok r) : MPS.Shaped r d :=
+  Op.apply_shaped o ψ r d h0 h1 h
+
+/-- chained expression: the dense vector of `((o0 + α·o1) @ o2) ψ` is `(O0 + α·O1) · O2 · ψ` evaluated on the operands'
+dense matrices and vector. -/
+theorem chained_dense (o0 o1 o2 a m : MPO R) (ψ r : MPS R) (α : R) (d : Nat)
+    (h0 : MPO.Shaped o0 d) (h1 : MPO.Shaped o1 d) (h2 : MPO.Shaped o2 d) (hψ : MPS.Shaped ψ d)
+    (ha : MPO.add o0 o1 α = .ok a) (hm : MPO.multiply a o2 = .ok m) (hr : Op.applyOperator m ψ = .ok r)
+    (s : List Nat) (hs : Digits d o0.A.length s) :
+    r.amp s = sumDigits d o0.A.length (fun t =>
+      sumDigits d o0.A.length (fun u => (o0.elem s u + α * o1.elem s u) * o2.elem u t) * ψ.amp t) :=
+  MPO.chained_dense o0 o1 o2 a m ψ r α d h0 h1 h2 hψ ha hm hr s hs
+
+/-- non-vacuity of the closure theorems and of `chained_dense`: `((w0 - w1) @ w0) φ0` (single site) is computed
+without exception; the three-site results of the examples above are shaped operands for further operations -/
+example : MPO.Shaped w0 2 ∧ MPO.Shaped w1 2 ∧ MPS.Shaped φ0 2 ∧
+    ((MPO.add w0 w1 (-1)).toOption.bind fun a => (MPO.multiply a w0).toOption.bind fun m =>
+      (Op.applyOperator m φ0).toOption.map fun r => r.amp [1]) = some (-54) :=
+  ⟨shaped_w0, shaped_w1, shaped_φ0, by decide⟩
 
 end Ptn.C03
